@@ -2,15 +2,9 @@ import SccacheModel.Model.Sched
 
 namespace SchedM
 
-/-! Proofs (design round): C18 invariants for the scheduler with the planned repair of F-C18-a
-    (record the job only if the chosen server still lists it). -/
+/-! Proofs: C18 invariants for the scheduler after the fix of F-C18-a
+    (`allocRecordFixed`, Model/Sched.lean: record the job only if the chosen server still lists it). -/
 namespace Sched
-
-/-- planned repair: third step of `handle_alloc_job` under both locks -/
-def allocRecordFixed (c : Sched) (j s : Nat) (st : JState) : Sched × SRes :=
-  match c.findSrv s with
-  | some v => if v.assigned.contains j && !c.jobs.any (·.id == j) then ({ c with jobs := c.jobs ++ [⟨j, s, st⟩] }, .ok) else (c, .err)
-  | none => (c, .err)
 
 theorem findSrv_setSrv (c : Sched) (v : Srv) (s : Nat) :
     (c.setSrv v).findSrv s = if s = v.id then some v else c.findSrv s := by
